@@ -68,4 +68,78 @@ theorem C10_gen_clear_tmp_error (W : World Err) (c : Ctx) :
   gen_obligation "C10_gen_clear_tmp_error: the regenerated code (Utv.Gen) is no longer equal to the hand model here" by
     ctx_simp [Options.clear_tmp_error]
 
+/-! ### `RuntimeContext.enter`: a sub-context has its own (empty) error lists; its options are `self.options & options` -/
+
+/-- the options object of a context: what `handle_error` and `__init__` read, and the model's `Opts` behind it -/
+def encOptions (m : Mode) : E :=
+  .obj "Options" [("collect_errors", .bool m.collect), ("max_errors", encOptNat m.maxErrors), ("max_depth", .none),
+    ("override", .bool false), ("_options", .dict [(.str "collect_errors", .bool m.collect)])]
+
+/-- a context as `enter` reads it (`extra`: its `cls`, `force_error`, `error_hooks`, whatever they are) -/
+def encCtxE (c : Ctx) (depth : Int) (routes : List E) (cls fe eh : E) : E :=
+  .obj "RuntimeContext" [("errors", encErrs c.errors), ("tmp_errors", encErrs c.tmp), ("options", encOptions c.mode),
+    ("depth", .int depth), ("routes", .seq .list routes), ("cls", cls), ("force_error", fe), ("error_hooks", eh)]
+
+/-- the error lists and the options object of a context -/
+def viewCtx (x : M Err E) : Option (E × E × E) :=
+  match x with
+  | .ok c => (match getattr c "errors", getattr c "tmp_errors", getattr c "options" with
+    | .ok a, .ok b, .ok o => some (a, b, o)
+    | _, _, _ => none)
+  | .error _ => none
+
+/-- the sub-context `__init__` builds when a route is given -/
+def subCtx (parent : E) (depth : Int) (routes : List E) (cls fe eh route o' : E) : E :=
+  .obj "RuntimeContext" [("context", parent), ("depth", .int depth), ("route", route),
+    ("routes", .seq .list (routes ++ [route])), ("errors", .seq .list []), ("tmp_errors", .seq .list []),
+    ("warnings", .seq .list []), ("cls", cls), ("error_hooks", eh), ("options", o'), ("force_error", fe)]
+
+theorem new_eq (W : World Err) (pc : String) (pattrs : List (String × E)) (depth : Int) (routes : List E)
+    (cls fe eh route : E) (cn : String)
+    (attrs : List (String × E)) (hr : route.isUnprovided = false) (hd : lookupAttr "max_depth" attrs = some .none)
+    (h1 : lookupAttr "depth" pattrs = some (.int depth))
+    (h2 : lookupAttr "routes" pattrs = some (.seq .list routes)) :
+    Options.RuntimeContext_new W (.obj pc pattrs) cls route fe eh (.obj cn attrs)
+      = .ok (subCtx (.obj pc pattrs) depth routes cls fe eh route (.obj cn attrs)) := by
+  gen_obligation "C10_gen_enter_isolated (its lemma new_eq): the regenerated code (Utv.Gen) is no longer equal to the hand model here" by
+    simp only [Options.RuntimeContext_new, Options.RuntimeContext_init]
+    obj_simp [getattr, setattr, lookupAttr, setAttrL, hr, hd, h1, h2, toList, iter, append, subCtx]
+
+section attrs
+variable (c : Ctx) (depth : Int) (routes : List E) (cls fe eh : E)
+theorem ga_cls : getattr (encCtxE c depth routes cls fe eh) "cls" = .ok cls := rfl
+theorem ga_fe : getattr (encCtxE c depth routes cls fe eh) "force_error" = .ok fe := rfl
+theorem ga_eh : getattr (encCtxE c depth routes cls fe eh) "error_hooks" = .ok eh := rfl
+theorem ga_opts : getattr (encCtxE c depth routes cls fe eh) "options" = .ok (encOptions c.mode) := rfl
+theorem ga_depth : getattr (encCtxE c depth routes cls fe eh) "depth" = .ok (.int depth) := rfl
+theorem ga_routes : getattr (encCtxE c depth routes cls fe eh) "routes" = .ok (.seq .list routes) := rfl
+end attrs
+
+/-- `context.enter(route, options)`: whatever `self.options & options` is (an `Options` without `max_depth`), the
+sub-context is a new object with **empty error lists** that runs under exactly that -/
+theorem C10_gen_enter_isolated (W : World Err) (c : Ctx) (depth : Int) (routes : List E) (cls fe eh route opt : E)
+    (cn : String) (attrs : List (String × E)) (hr : route.isUnprovided = false)
+    (ho : Options.Options_and W (encOptions c.mode) opt = .ok (.obj cn attrs))
+    (hd : lookupAttr "max_depth" attrs = some .none) :
+    Options.enter W (encCtxE c depth routes cls fe eh) route opt
+      = .ok (subCtx (encCtxE c depth routes cls fe eh) depth routes cls fe eh route (.obj cn attrs)) := by
+  gen_obligation "C10_gen_enter_isolated: the regenerated code (Utv.Gen) is no longer equal to the hand model here" by
+    have hn := new_eq W "RuntimeContext"
+      [("errors", encErrs c.errors), ("tmp_errors", encErrs c.tmp), ("options", encOptions c.mode),
+        ("depth", .int depth), ("routes", .seq .list routes), ("cls", cls), ("force_error", fe), ("error_hooks", eh)]
+      depth routes cls fe eh route cn attrs hr hd rfl rfl
+    simp only [Options.enter, ga_cls, ga_fe, ga_eh, ga_opts, ho, bind, Except.bind]
+    exact hn
+
+/-- `context.enter(route)` without options is `Ctx.enter c .none`: the same options, nothing of the parent's errors -/
+theorem C10_gen_enter (W : World Err) (c : Ctx) (depth : Int) (routes : List E) (cls fe eh route : E)
+    (hr : route.isUnprovided = false) :
+    viewCtx (Options.enter W (encCtxE c depth routes cls fe eh) route .none)
+      = some (encErrs (c.enter .none).errors, encErrs (c.enter .none).tmp, encOptions (c.enter .none).mode) := by
+  gen_obligation "C10_gen_enter: the regenerated code (Utv.Gen) is no longer equal to the hand model here" by
+    have ho : Options.Options_and W (encOptions c.mode) (.none : E) = .ok (encOptions c.mode) := by
+      obj_simp [Options.Options_and, isinstance]
+    rw [C10_gen_enter_isolated W c depth routes cls fe eh route .none _ _ hr ho rfl]
+    rfl
+
 end Utv.GenEq.C10
